@@ -101,6 +101,12 @@ def explore(modname, shards, nproc=None, chunk=300, budget_s=600,
     verif_dir = os.path.dirname(os.path.dirname(os.path.abspath(__file__)))
     res = Result()
     t0 = time.time()
+    # budgets are wall-clock; on a machine shared with other heavy jobs they
+    # can be stretched (the verdict rules are unaffected)
+    try:
+        budget_s = budget_s * float(os.environ.get("VERIF_BUDGET_SCALE", "1") or 1)
+    except ValueError:
+        pass
     deadline = t0 + budget_s
     queue = [(modname, factory, key, params, []) for factory, key, params in shards]
     queue.reverse()
